@@ -111,6 +111,11 @@ func l3handle(item *vItem) []byte {
 	buf := ndBytes(ndName("cbor.buf", verifL3.n))
 	verifL3.n++
 	ndAssume(len(buf) > 0)
+	if item.kind == ikNull {
+		ndAssume(len(buf) == 1 && buf[0] == 0xf6)
+	} else if item.kind != ikTag {
+		verifMapLike(buf)
+	}
 	verifL3.bufs = append(verifL3.bufs, l3buf{buf, item})
 	return buf
 }
